@@ -24,7 +24,7 @@ RULE = (
     "distinct = hash(schema shape, datum value classes, raw/parsed); non-trivial as C01."
 )
 ASSUMPTIONS = c01.ASSUMPTIONS
-N = {"quick": 48000, "thorough": 1600000}
+N = {"quick": 160000, "thorough": 2400000}
 TIME_LIMIT = {"quick": 40, "thorough": 480}
 SHARDS = 16
 REACH = {
